@@ -211,3 +211,81 @@ theorem cvm_convErrors_length (c : Converter Rat) (to : System) (q : Option (SQu
     split <;> simp
 
 end Cook
+
+namespace Cook
+open Arith
+
+/-! ### conversions between known units of one quantity succeed -/
+
+theorem cvm_isText_false_ne {v : Value Rat} (h : v.isText = false) (t : Str) : v ≠ .text t := by
+  intro hv; rw [hv] at h; simp [Value.isText] at h
+
+/-- a numeric or range quantity in a known unit converts to every known unit of the same physical
+    quantity -/
+theorem cvm_convert_unit_succeeds {c : Converter Rat} (hc : c.Sound) (q : SQuantity Rat)
+    (u t : Unit Rat) (k : Str) (hu : unitInfo c q = some u) (hv : q.value.isText = false)
+    (hk : c.findUnit k = some t) (hq : u.pq = t.pq) :
+    ∃ q', convertImpl c q (.unit (.key k)) = (q', .ok ()) ∧ Restated c q u q' t := by
+  have h := convertImpl_spec hc q (.unit (.key k)) (by intro x hx; cases hx)
+  generalize hr : convertImpl c q (.unit (.key k)) = r at h
+  cases h with
+  | failed e he =>
+    exfalso
+    obtain ⟨k0, hk0, hf0⟩ := unitInfo_some hu
+    cases he with
+    | noUnit h0 => rw [h0] at hk0; cases hk0
+    | unknownUnit k1 h1 hf1 => rw [hk0] at h1; cases h1; rw [hf0] at hf1; cases hf1
+    | textValue u1 t1 _ hv1 => exact cvm_isText_false_ne hv t1 hv1
+    | unknownTarget u1 k1 _ hto hf1 => cases hto; rw [hk] at hf1; cases hf1
+    | mixed u1 t1 tu hu1 hto ht1 hq1 =>
+      cases hto
+      rw [hu] at hu1; cases hu1
+      have := cvm_getUnit_key ht1
+      rw [hk] at this; cases this
+      exact hq1 hq
+    | noBest u1 s _ hs _ =>
+      rcases hs with hs | ⟨hs, _⟩ <;> cases hs
+  | converted q' u' nu hu' hr' _ _ hkey =>
+    rw [hu] at hu'; cases hu'
+    have := cvm_getUnit_key (hkey _ rfl)
+    rw [hk] at this; cases this
+    exact ⟨q', rfl, hr'⟩
+
+/-- …and to every system that has a best list for its physical quantity -/
+theorem cvm_convert_best_succeeds {c : Converter Rat} (hc : c.Sound) (q : SQuantity Rat)
+    (u : Unit Rat) (s : System) (hu : unitInfo c q = some u) (hv : q.value.isText = false)
+    (hne : ((c.best u.pq).conversions s).entries ≠ []) :
+    ∃ q' nu, convertImpl c q (.best s) = (q', .ok ()) ∧ Restated c q u q' nu ∧
+      nu ∈ ((c.best u.pq).conversions s).unitsOf := by
+  have h := convertImpl_spec hc q (.best s) (by intro x hx; cases hx)
+  generalize hr : convertImpl c q (.best s) = r at h
+  cases h with
+  | failed e he =>
+    exfalso
+    obtain ⟨k0, hk0, hf0⟩ := unitInfo_some hu
+    cases he with
+    | noUnit h0 => rw [h0] at hk0; cases hk0
+    | unknownUnit k1 h1 hf1 => rw [hk0] at h1; cases h1; rw [hf0] at hf1; cases hf1
+    | textValue u1 t1 _ hv1 => exact cvm_isText_false_ne hv t1 hv1
+    | unknownTarget u1 k1 _ hto hf1 => cases hto
+    | mixed u1 t1 tu hu1 hto ht1 hq1 => cases hto
+    | noBest u1 s1 hu1 hs he1 =>
+      rw [hu] at hu1; cases hu1
+      rcases hs with hs | ⟨hs, _⟩
+      · cases hs; exact hne he1
+      · cases hs
+  | converted q' u' nu hu' hr' hbest _ _ =>
+    rw [hu] at hu'; cases hu'
+    exact ⟨q', nu, rfl, hr', hbest s rfl⟩
+
+/-- every best list of the converter is non-empty -/
+def bestListsNonempty (c : Converter Rat) : Bool :=
+  PhysQ.all.all (fun q => [System.metric, System.imperial].all (fun s =>
+    !((c.best q).conversions s).entries.isEmpty))
+
+theorem cvm_bestListsNonempty {c : Converter Rat} (h : bestListsNonempty c = true) (q : PhysQ)
+    (s : System) : ((c.best q).conversions s).entries ≠ [] := by
+  simp only [bestListsNonempty, List.all_eq_true, PhysQ.all, Bool.not_eq_true', List.isEmpty_eq_false_iff] at h
+  exact h q (by cases q <;> simp) s (by cases s <;> simp)
+
+end Cook
